@@ -100,8 +100,14 @@ CtlCC(s, ch, n, v) ==
     [] n = 5  -> SetChan(s, ch, [c EXCEPT !.porta = (c.porta % 128) + v * 128])
     [] n = 37 -> SetChan(s, ch, [c EXCEPT !.porta = (c.porta \div 128) * 128 + v])
     [] n = 1  -> SetChan(s, ch, [c EXCEPT !.vib = v])
-    \* bank select, all-sounds/notes-off and reset-all-controllers are outside the scope of this check
-    [] n \in {0, 32, 120, 121, 123} -> [SetChan(s, ch, [c EXCEPT !.ok = FALSE]) EXCEPT !.notes = SelectSeq(s.notes, LAMBDA m : m.ch # ch)]
+    \* reset all controllers: wheel centred, bend range back to the default of 2 semitones, pedals, vibrato, aftertouch
+    \* and portamento off; notes that only a pedal was holding end (the RPN selection itself is left alone)
+    [] n = 121 ->
+         LET c1 == [c EXCEPT !.bend = 0, !.msb = 2, !.lsb = 0, !.ped = FALSE, !.vib = 0, !.cat = 0, !.nat = FALSE, !.porta = 0, !.pen = FALSE, !.psrc = -1]
+             keep == SelectSeq(s.notes, LAMBDA m : ~(m.ch = ch /\ ~m.down /\ ~m.ttl))
+         IN [SetChan(s, ch, c1) EXCEPT !.notes = MapSeq(keep, LAMBDA m : IF m.ch = ch THEN [m EXCEPT !.heldp = FALSE] ELSE m)]
+    \* bank select and all-sounds/notes-off are outside the scope of this check
+    [] n \in {0, 32, 120, 123} -> [SetChan(s, ch, [c EXCEPT !.ok = FALSE]) EXCEPT !.notes = SelectSeq(s.notes, LAMBDA m : m.ch # ch)]
     [] OTHER -> s
 
 \* the key (ch, k) is released: by NoteOff (force = FALSE) or by the NoteOn that re-strikes it (force = TRUE)
